@@ -181,7 +181,9 @@ def reference():
 
 
 def rule_ref():
-    return ident
+    # A rule from an imported grammar can be given by its fully qualified name
+    # (e.g. `component.types.List`).
+    return _(r"\w+(\.\w+)*")
 
 
 # TODO: Remove "|" optional sep in version 4.0.
